@@ -292,6 +292,7 @@ def stress(chk, gwbin, label, cfg, rounds, procs):
         for rd_ in range(rounds):
             key = "x%04d" % rd_
             hist, lock = [], threading.Lock()
+            srv_errors = []
             nthreads = rnd.choice([3, 4, 6])
             plan = []
             for t in range(nthreads):
@@ -310,6 +311,8 @@ def stress(chk, gwbin, label, cfg, rounds, procs):
                     t0 = time.monotonic()
                     if kind == "put":
                         r = cl.req("PUT", "/bkt/" + key, body=body_of(arg), headers=write_headers(arg)); res = "ok" if r.status == 200 else "fail"
+                        if r.status >= 500 or r.status == -1:
+                            with lock: srv_errors.append(("PUT", r.status, r.code))
                     elif kind == "delete":
                         r = cl.req("DELETE", "/bkt/" + key); res = "ok"
                     else:
@@ -320,6 +323,8 @@ def stress(chk, gwbin, label, cfg, rounds, procs):
             ts = [threading.Thread(target=worker, args=(t,)) for t in range(nthreads)]
             [t.start() for t in ts]; [t.join() for t in ts]
             chk.case((label, "stress", rd_, tuple(tuple(p) for p in plan)), True); chk.traces += 1
+            if srv_errors:
+                chk.fail("c05:error:concurrent-put", "[%s, %d process(es)] a valid PutObject among concurrent requests on one key was answered %r" % (label, procs, srv_errors[0]), {"config": label, "errors": srv_errors[:5]})
             bad = [h for h in hist if isinstance(h[4], tuple)]
             for h in bad[:1]:
                 kind = h[4][0]
